@@ -27,11 +27,11 @@ SWITCH = {
     "F4": "periodicAckSwallow", "F8": "refBeforeSpawnUnmarked", "F9": "removalOverwrite",
     "F11": "emptyMutateWithGraphs", "F14": "whiteReAddForgetsLost", "F18": "periodicBumpSwallow",
     "F19": "ackDiscarded", "F21": "lateJoinerMissesEmpty", "F15": "staleBuffersOnRestart",
-    "F17": "clientLinkedDespawn",
+    "F17": "clientLinkedDespawn", "F24": "mapOrphansPlaceholder",
 }
 ALL_SWITCHES = ["removalOverwrite", "staleRemovalOnDespawn", "noLostDespawnHidden", "whiteReAddForgetsLost",
                 "ackOnReceipt", "periodicAckSwallow", "periodicBumpSwallow", "ackDiscarded", "lateJoinerMissesEmpty", "staleBuffersOnRestart",
-                "emptyMutateWithGraphs", "refBeforeSpawnUnmarked", "clientLinkedDespawn", "seedLeakHidden", "seedIgnoreMapping", "seedEvNoQueue", "seedEvNoExclude",
+                "emptyMutateWithGraphs", "refBeforeSpawnUnmarked", "clientLinkedDespawn", "mapOrphansPlaceholder", "seedLeakHidden", "seedIgnoreMapping", "seedEvNoQueue", "seedEvNoExclude",
                 "seedEvUnauth"]
 
 # monitors (VIOL tags of CoreTrace) -> properties
@@ -269,9 +269,27 @@ def sig_f20(lines):
     return False
 
 
-SIGNATURES = {"F17": sig_f17, "F20": sig_f20}
+def sig_f24(lines):
+    """Mechanism of known finding F24, on the client's observations: a client frame applies a mapping for a
+    server entity that the client's map already holds as a plain (not pre-spawned) entry - the placeholder
+    reserved earlier for a reference."""
+    prev = None
+    for d in lines:
+        if d["ev"] == "CliFrame" and prev is not None:
+            c = d["args"]["c"]
+            pe = prev["post"]["cli"][c]["ents"]
+            for m in prev["post"]["net"][c]["rxUpd"]:
+                for mp in m.get("maps", []):
+                    if mp[0] in pe and pe[mp[0]].get("pre", "none") == "none":
+                        return True
+        prev = d
+    return False
+
+
+SIGNATURES = {"F17": sig_f17, "F20": sig_f20, "F24": sig_f24}
 # monitors a known finding is known to falsify (C11rest: the dead entity's mutations are never acknowledged)
-KF_MONITORS = {"F17": {"C01", "C03", "C01parent", "C11rest"}, "F20": {"C08query"}}
+KF_MONITORS = {"F17": {"C01", "C03", "C01parent", "C11rest"}, "F20": {"C08query"},
+               "F24": {"C01", "C02", "C03", "C01parent", "C16"}}
 
 
 def run_lines(trace, run):
